@@ -71,7 +71,8 @@ def compile_cpp(sources, out, include_dirs, sanitize=True, cxx=CXX, extra=(), ti
         cmd += ['-c']
     cmd += list(sources) + ['-o', out]
     try:
-        p = subprocess.run(cmd, stdout=subprocess.PIPE, stderr=subprocess.STDOUT, timeout=timeout)
+        p = subprocess.run(cmd, stdout=subprocess.PIPE, stderr=subprocess.STDOUT, timeout=timeout,
+                           env=dict(os.environ, LC_ALL='C'))
     except subprocess.TimeoutExpired:
         raise BuildFailed('compile-timeout', ' '.join(cmd))
     if p.returncode != 0:
